@@ -236,6 +236,10 @@ func runCase(d *Def, c *Case) (res Res) {
 			args = append([]string{}, c.RawArgs...)
 		}
 	}
+	if c.HasPre && c.Comp == "" {
+		b.Root.Parse(StringsOf(c.Pre))
+		w.Reset()
+	}
 	rest, err := b.Root.Parse(args)
 	if c.Comp != "" {
 		out := cw.String()
